@@ -76,10 +76,11 @@ fn emit_choice(
             // Skip the auto-newline for terminal diverts, and also for inline diverts that are
             // authored after inline selected text on the same source line (the selected text keeps
             // the trailing whitespace needed to join the diverted content).
-            let body_is_terminal_divert = matches!(
-                choice.body.as_slice(),
-                [Node::Divert(d)] if d.target == "END" || d.target == "DONE"
-            );
+            let body_is_terminal_divert = choice.body_divert_is_inline
+                && matches!(
+                    choice.body.as_slice(),
+                    [Node::Divert(d)] if d.target == "END" || d.target == "DONE"
+                );
             let body_is_inline_divert = matches!(choice.body.as_slice(), [Node::Divert(_)])
                 && selected_text.ends_with(char::is_whitespace);
             if !body_is_terminal_divert && !body_is_inline_divert {
